@@ -78,6 +78,8 @@ def run(tier, seed):
             continue
         dpool["c_" + nm.replace(" ", "_")] = corp[nm]
     # sources whose rendering is empty (every entry point still has to agree, trailing newline included)
+    # output that contains '%' conversions-lookalikes (every writing path must treat the rendering as data)
+    dpool["percent"] = b"100% of [docs](http://example.com/user%20docs/a%2Fb.html) cost 5%d or %s, %5.2f%% and %n.\n\n    code %x %c\n"
     dpool.update({"empty": b"", "blank": b"\n\n", "defonly": b"[a]: http://x.y/\n\n[^f]: unused note\n", "metaonly": b"Base Header Level: 2\n\n"})
     fmts = ["html", "latex", "beamer", "memoir", "opml", "fodt", "odt", "epub", "bundlezip", "itmz"]
     exts = EXTSETS[:3] if tier == "quick" else EXTSETS
@@ -113,6 +115,38 @@ def run(tier, seed):
                 det = (f in PLAIN) or (fam not in c05.CONVFAM)
                 trace.append(dict(e="conv", fam=fam, src=d, key="%s|%s|%s%s" % (d, f, xn, grp), digest=digest_of(f, fam, ev), det=det, null=ev["null"], srcsame=ev["srcsame"],
                                   inplace=False, wrote=ev["wrote"], needfile=fam.endswith("_file"), rng=ev["rng"], rand=ev["rand"], len=ev["len"]))
+        # languages: every entry point takes the language as a parameter, the command line as -l <code>
+        LANGS = [("en", 0), ("es", 1), ("de", 2), ("fr", 3), ("nl", 4), ("sv", 5), ("he", 6)]
+        ldocs = {"lq": b"\"double\" and 'single' quotes -- dash...\n\nnote[^n] cite[#c] gloss[?g]\n\n[^n]: note\n[#c]: cite\n[?g]: term\n"}
+        lcases = [(d, f, code, n) for d in ldocs for f in ("html", "latex") for (code, n) in LANGS]
+        lsegs = []
+        for (d, f, code, n) in lcases:
+            s = ["seg\tc06lang", line("src", d, sx(ldocs[d]))]
+            for fam in ("s_conv", "d_conv", "e_conv", "s_data", "d_data", "e_data"): s.append(line("conv", fam, d, docs.FMT[f], CLISTD, n))
+            lsegs.append(s)
+        lres = run_harness(exe, lsegs, timeout=60)
+        def do_lang(c):
+            d, f, code, n = c
+            sub = os.path.join(wd, "lang_%s_%s_%s" % (d, f, code)); os.makedirs(sub, exist_ok=True)
+            return [(mode,) + run_cli(cli, sub, d, ldocs[d], f, ["-l", code] if mode != "file" else ["--lang=" + code], mode) for mode in ("stdin", "file", "o", "b")]
+        with concurrent.futures.ThreadPoolExecutor(NCPU) as ex:
+            lcres = list(ex.map(do_lang, lcases))
+        for (d, f, code, n), seg, r, outs in zip(lcases, lsegs, lres, lcres):
+            if r["status"] != "ok":
+                problems.append(("crash", (d, f, "lang-" + code), r)); continue
+            trace.append(dict(e="reset"))
+            key = "%s|%s|lang-%s" % (d, f, code)
+            for ev in r["events"]:
+                if ev.get("e") == "conv":
+                    trace.append(dict(e="conv", fam=ev["fam"], src=d, key=key, digest=ev["digest"], det=True, null=ev["null"], srcsame=ev["srcsame"], inplace=False, wrote=ev["wrote"], needfile=False, rng=ev["rng"], rand=ev["rand"], len=ev["len"]))
+            for mode, b, rc in outs:
+                trace.append(dict(e="conv", fam="cli_" + mode, src=d, key=key, digest="NULL" if b is None else project.fnv(b), det=True, null=(b is None or rc != 0), srcsame=True, inplace=False, wrote=b is not None, needfile=mode in ("o", "b"), rng=0, rand=0, len=len(b or b"")))
+        # and the languages must actually differ from one another (otherwise the comparison above says nothing)
+        ldig = {}
+        for (d, f, code, n), r in zip(lcases, lres):
+            for ev in r["events"]:
+                if ev.get("e") == "conv" and ev["fam"] == "s_conv": ldig.setdefault((d, f), {})[code] = ev["digest"]
+        chk.cov["languages_distinct_renderings"] = {"%s|%s" % k: len(set(v.values())) for k, v in ldig.items()}
         # the command line tool
         clicases = cases if tier == "thorough" else [c for c in cases if c[0] in ("notes", "images", "meta_de", "plain")]
         def do_cli(c):
